@@ -98,6 +98,10 @@ mod serialization;
 
 pub use base::no_overlap;
 
+#[cfg(twofloat_verif)]
+#[doc(hidden)]
+pub use arithmetic::__verif_fma;
+
 pub mod iter;
 
 /// Represents a two-word floating point type, represented as the sum of two
